@@ -61,7 +61,7 @@ func c03Poll(c *vf.Case, w *sim.World) {
 
 func c03Script(c *vf.Case, w *sim.World) {
 	r := c.Rng
-	kinds := []sim.Kind{sim.KConnDialed, sim.KConnAccepted, sim.KAdapter, sim.KFifoR, sim.KFifoW, sim.KUDP, sim.KListener}
+	kinds := []sim.Kind{sim.KConnDialed, sim.KConnAccepted, sim.KAdapter, sim.KFifoR, sim.KFifoW, sim.KUDP, sim.KListener, sim.KConnUDP}
 	for i := 0; i < r.Range(2, 5); i++ {
 		k := kinds[r.Intn(len(kinds))]
 		// an adapter's write parks in the Go netpoller instead of returning would-block: no shrunken buffers for it
